@@ -10,7 +10,7 @@
 package kernel
 
 //@ func (node *Node) popAndProcessCacheQueue
-//@   trustpre PayloadHash electSnapshotNode Validate TransactionType ValidatedSize IsSnapshotBatchable   -- their preconditions (transaction well-formedness, membership view) belong to C06/C29, not to the size accounting
+//@   trustpre PayloadHash electSnapshotNode Validate TransactionType ValidatedSize IsSnapshotBatchable Marshal   -- their preconditions (transaction well-formedness, membership view) belong to C06/C29, not to the size accounting
 //@   property C31
 //@   requires node != nil && !isnil(node.persistStore)     -- representation invariant of Node: set once by SetupNode
 //@   ghost T = 2
